@@ -416,9 +416,10 @@ Proof.
   - eauto.
 Qed.
 
-Lemma wf_env_assoc E n top : wf_env E = true -> assoc n E = Some top -> wf_top top = true.
+Lemma wf_env_assoc E n top : wf_env E = true -> find_tmpl E n = Ok (Some top) -> wf_top top = true.
 Proof.
-  unfold wf_env. intros H Ha. destruct (forallb_assoc _ _ _ _ H Ha) as [k' Hk]. exact Hk.
+  unfold wf_env, find_tmpl. intros H Ha. destruct (assoc n E) as [[t|c]|] eqn:Ea; try discriminate.
+  inversion Ha; subst. destruct (forallb_assoc _ _ _ _ H Ea) as [k' Hk]. exact Hk.
 Qed.
 
 Lemma wf_top_nodup top : wf_top top = true -> nodupZ (map fst (blocks_of top)) = true.
@@ -445,7 +446,7 @@ Lemma first_template_wf v es top : first_template E v es = Ok (Some top) -> wf_t
 Proof.
   induction es as [|e r IH]; cbn; [discriminate|].
   destruct (eval_name e v) as [n| | |]; cbn; try discriminate.
-  destruct (assoc n E) eqn:Ea; [|exact IH].
+  destruct (find_tmpl E n) as [[t|]| | |] eqn:Ea; cbn; try discriminate; [|exact IH].
   intros H. inversion H; subst. eapply wf_env_assoc; eassumption.
 Qed.
 
@@ -733,10 +734,11 @@ Lemma load_blocks_emb e h s :
   load_blocks E e None (emb h s) =
   bind (eval_name e (svars s)) (fun n =>
     if memZ n (h_loaded h) then Err E_InvalidOperation
-    else match assoc n E with
+    else bind (find_tmpl E n) (fun o =>
+         match o with
          | None => Err E_TemplateNotFound
          | Some ptop => Ok (Some ptop, st_ext h s n ptop)
-         end).
+         end)).
 Proof. reflexivity. Qed.
 
 Lemma heads_none h s : forall top,
@@ -751,7 +753,7 @@ Proof.
     + (* IExtends *) cbn [ilist istep parent_of]. rewrite load_blocks_emb.
       destruct (eval_name e (svars s)) as [n| | |]; cbn [bind]; try reflexivity.
       destruct (memZ n (h_loaded h)); [reflexivity|].
-      destruct (assoc n E) as [ptop|]; [|reflexivity]. cbn [bind fst snd].
+      destruct (find_tmpl E n) as [[ptop|]| | |]; cbn [bind]; try reflexivity. cbn [bind fst snd].
       rewrite heads_some by exact Hq.
       destruct (parent_of E (svars s) (h_loaded h) r (Some (n, ptop))) as [[[n' p']|]| | |]; reflexivity.
     + (* ICondExtends *) cbn [ilist istep parent_of]. change (vars (emb h s)) with (svars s).
@@ -759,7 +761,7 @@ Proof.
       * rewrite load_blocks_emb.
         destruct (eval_name e (svars s)) as [n| | |]; cbn [bind]; try reflexivity.
         destruct (memZ n (h_loaded h)); [reflexivity|].
-        destruct (assoc n E) as [ptop|]; [|reflexivity]. cbn [bind fst snd].
+        destruct (find_tmpl E n) as [[ptop|]| | |]; cbn [bind]; try reflexivity. cbn [bind fst snd].
         rewrite heads_some by exact Hq.
         destruct (parent_of E (svars s) (h_loaded h) r (Some (n, ptop))) as [[[n' p']|]| | |]; reflexivity.
       * cbn [bind fst snd]. rewrite IH by (right; exact Hq).
@@ -768,17 +770,17 @@ Proof.
 Qed.
 
 Lemma parent_of_some v seen : forall top found n ptop,
-  parent_of E v seen top found = Ok (Some (n, ptop)) -> found = Some (n, ptop) \/ assoc n E = Some ptop.
+  parent_of E v seen top found = Ok (Some (n, ptop)) -> found = Some (n, ptop) \/ find_tmpl E n = Ok (Some ptop).
 Proof.
   induction top as [|it r IH]; intros found n ptop H; [cbn in H; inversion H; auto|].
   destruct (is_head it) eqn:Eh.
   - destruct it; try discriminate; cbn [parent_of] in H.
     + destruct found; [discriminate|]. apply bind_ok in H as (n0 & _ & H).
-      destruct (memZ n0 seen); [discriminate|]. destruct (assoc n0 E) as [p0|] eqn:Ea; [|discriminate].
+      destruct (memZ n0 seen); [discriminate|]. destruct (find_tmpl E n0) as [[p0|]| | |] eqn:Ea; cbn [bind] in H; try discriminate.
       apply IH in H as [H|H]; [inversion H; subst; auto|auto].
     + destruct (truthy (lookup x v)); [|eauto].
       destruct found; [discriminate|]. apply bind_ok in H as (n0 & _ & H).
-      destruct (memZ n0 seen); [discriminate|]. destruct (assoc n0 E) as [p0|] eqn:Ea; [|discriminate].
+      destruct (memZ n0 seen); [discriminate|]. destruct (find_tmpl E n0) as [[p0|]| | |] eqn:Ea; cbn [bind] in H; try discriminate.
       apply IH in H as [H|H]; [inversion H; subst; auto|auto].
   - rewrite parent_of_nonhead in H by assumption. inversion H; auto.
 Qed.
@@ -869,7 +871,7 @@ Lemma inherit_correct_proof : forall (E : env) (main : name) (ctx : frame) (fuel
   wf_env E = true -> render fixed_code None fuel E main ctx = srender fuel E main ctx.
 Proof.
   intros E main ctx fuel Hwf. unfold render, srender.
-  destruct (assoc main E) as [top|] eqn:Ea; [|reflexivity].
+  destruct (find_tmpl E main) as [[top|]| | |] eqn:Ea; try reflexivity.
   cbn [depth_ok].
   pose proof (wf_env_assoc _ _ _ Hwf Ea) as Hwt.
   set (h := mkHid (prepare (blocks_of top)) [] true [] 0).
@@ -889,7 +891,7 @@ Qed.
 (* every template extends (with a literal name) a template that exists: following the extends
    tags never reaches a root *)
 Definition closed_env (E : env) : Prop :=
-  forall n top, assoc n E = Some top -> exists p r ptop, top = IExtends (NLit p) :: r /\ assoc p E = Some ptop.
+  forall n top, find_tmpl E n = Ok (Some top) -> exists p r ptop, top = IExtends (NLit p) :: r /\ find_tmpl E p = Ok (Some ptop).
 
 Lemma parent_of_found E v seen : forall top x,
   parent_of E v seen top (Some x) = Err E_InvalidOperation \/ parent_of E v seen top (Some x) = Ok (Some x).
@@ -922,11 +924,11 @@ Qed.
 
 (* never a (truncated) success, whatever the fuel *)
 Lemma cycle_never_ok E : closed_env E -> forall f q acc seen top s ptop0 p0 r0,
-  top = IExtends (NLit p0) :: r0 -> assoc p0 E = Some ptop0 ->
+  top = IExtends (NLit p0) :: r0 -> find_tmpl E p0 = Ok (Some ptop0) ->
   forall s', scall E f (STemplate q acc seen top) s <> Ok s'.
 Proof.
   intros Hc. induction f as [|f IH]; intros q acc seen top s ptop0 p0 r0 -> Hp s'; cbn [scall]; [discriminate|].
-  cbn [parent_of eval_name bind]. destruct (memZ p0 seen); [discriminate|]. rewrite Hp.
+  cbn [parent_of eval_name bind]. destruct (memZ p0 seen); [discriminate|]. rewrite Hp. cbn [bind].
   destruct (parent_of_found E (svars s) seen r0 (p0, ptop0)) as [H|H]; rewrite H; cbn [bind]; [discriminate|].
   destruct (Hc _ _ Hp) as (p1 & r1 & ptop1 & Ht & Hp1).
   eapply IH; eassumption.
@@ -934,30 +936,28 @@ Qed.
 
 (* with enough fuel (one unit per template of the environment) the error is reported *)
 Lemma cycle_error E : closed_env E -> forall f q acc seen top s ptop0 p0 r0,
-  top = IExtends (NLit p0) :: r0 -> assoc p0 E = Some ptop0 ->
+  top = IExtends (NLit p0) :: r0 -> find_tmpl E p0 = Ok (Some ptop0) ->
   NoDup seen -> incl seen (map fst E) -> (length E < f + length seen)%nat ->
   scall E f (STemplate q acc seen top) s = Err E_InvalidOperation.
 Proof.
   intros Hc. induction f as [|f IH]; intros q acc seen top s ptop0 p0 r0 -> Hp Hnd Hin Hlen.
   - exfalso. pose proof (NoDup_incl_length Hnd Hin) as Hle. rewrite map_length in Hle. lia.
-  - cbn [scall parent_of eval_name bind]. destruct (memZ p0 seen) eqn:Em; [reflexivity|]. rewrite Hp.
+  - cbn [scall parent_of eval_name bind]. destruct (memZ p0 seen) eqn:Em; [reflexivity|]. rewrite Hp. cbn [bind].
     destruct (parent_of_found E (svars s) seen r0 (p0, ptop0)) as [H|H]; rewrite H; cbn [bind]; [reflexivity|].
     destruct (Hc _ _ Hp) as (p1 & r1 & ptop1 & Ht & Hp1).
     eapply IH; try eassumption.
     + apply NoDup_snoc; [assumption|]. intros Hx. apply memZ_In in Hx. congruence.
-    + intros x Hx. apply in_app_or in Hx as [Hx|[Hx|[]]]; [auto|]. subst x. eapply assoc_In_keys; eassumption.
+    + intros x Hx. apply in_app_or in Hx as [Hx|[Hx|[]]]; [auto|]. subst x.
+      unfold find_tmpl in Hp. destruct (assoc p0 E) as [t0|] eqn:Eap; [|discriminate]. eapply assoc_In_keys; eassumption.
     + rewrite app_length. cbn. lia.
 Qed.
 
-Lemma extends_cycle_proof E main ctx : wf_env E = true -> closed_env E -> In main (map fst E) ->
+Lemma extends_cycle_proof E main top ctx : wf_env E = true -> closed_env E -> find_tmpl E main = Ok (Some top) ->
   (forall fuel o, render fixed_code None fuel E main ctx <> Ok o) /\
   (forall fuel, (length E < fuel)%nat -> render fixed_code None fuel E main ctx = Err E_InvalidOperation).
 Proof.
-  intros Hwf Hc Hin.
-  assert (Hex : exists top, assoc main E = Some top).
-  { clear -Hin. induction E as [|[k v] l IH]; cbn in *; [tauto|]. destruct (main =? k) eqn:Ek; [eauto|].
-    destruct Hin as [Hk|Hk]; [subst; rewrite Z.eqb_refl in Ek; discriminate|auto]. }
-  destruct Hex as [top Ea]. destruct (Hc _ _ Ea) as (p & r & ptop & Ht & Hp).
+  intros Hwf Hc Ea.
+  destruct (Hc _ _ Ea) as (p & r & ptop & Ht & Hp).
   split.
   - intros fuel o. rewrite inherit_correct_proof by assumption. unfold srender. rewrite Ea.
     destruct (scall E fuel (STemplate false [] [] top) _) as [s'| | |] eqn:Es; try discriminate.
@@ -981,12 +981,13 @@ Lemma double_extends_proof Q lim E f cur e1 e2 rest st :
 Proof.
   cbn [icall ilist istep]. unfold load_blocks at 1.
   destruct (eval_name_cases e1 (vars st)) as [[n En]|[c En]]; rewrite En; cbn [bind]; [|eauto].
-  destruct (memZ n (loaded st)); [cbn [bind]; eauto|]. destruct (assoc n E); [|cbn [bind]; eauto].
+  destruct (memZ n (loaded st)); [cbn [bind]; eauto|].
+  unfold find_tmpl. destruct (assoc n E) as [[pt|c]|]; cbn [bind]; eauto.
   cbn [bind fst snd load_blocks]. eauto.
 Qed.
 
 (* extending a template that does not exist *)
-Lemma missing_parent_proof Q lim E f cur p rest st : assoc p E = None -> memZ p (loaded st) = false ->
+Lemma missing_parent_proof Q lim E f cur p rest st : find_tmpl E p = Ok None -> memZ p (loaded st) = false ->
   icall Q lim E (S f) (TTemplate cur (IExtends (NLit p) :: rest)) st = Err E_TemplateNotFound.
 Proof.
   intros Ha Hm. cbn [icall ilist istep load_blocks eval_name bind]. rewrite Hm, Ha. reflexivity.
@@ -1060,7 +1061,7 @@ Qed.
 Lemma parent_of_simple E v seen top : forallb is_simple top = true -> parent_of E v seen top None = Ok None.
 Proof. destruct top as [|it r]; [reflexivity|]. cbn. destruct it; try discriminate; reflexivity. Qed.
 
-Lemma import_simple_spec E f lvl0 q c cur n m top s : assoc n E = Some top -> forallb is_simple top = true ->
+Lemma import_simple_spec E f lvl0 q c cur n m top s : find_tmpl E n = Ok (Some top) -> forallb is_simple top = true ->
   sstep E (scall E (S f)) lvl0 q c cur (IImport (NLit n) m) s = sset m (VModule (exports_of top)) s.
 Proof.
   intros Ha Hs. cbn [sstep]. unfold import_scope, render_include. cbn [first_template eval_name bind svars spush].
@@ -1071,8 +1072,8 @@ Proof.
 Qed.
 
 Lemma import_exports_exact_proof E main n m top ctx fuel :
-  wf_env E = true -> assoc main E = Some [IImport (NLit n) m; IKeys m] ->
-  assoc n E = Some top -> forallb is_simple top = true ->
+  wf_env E = true -> find_tmpl E main = Ok (Some [IImport (NLit n) m; IKeys m]) ->
+  find_tmpl E n = Ok (Some top) -> forallb is_simple top = true ->
   render fixed_code None (S (S fuel)) E main ctx = Ok (key_tokens (exports_of top)).
 Proof.
   intros Hwf Hm Hn Hs. rewrite inherit_correct_proof by assumption. unfold srender. rewrite Hm.
@@ -1219,9 +1220,34 @@ Lemma limit_only_adds_errors_proof Q L fuel E main ctx :
   flagged (render Q (Some L) fuel E main ctx) = false ->
   render Q None fuel E main ctx = render Q (Some L) fuel E main ctx.
 Proof.
-  unfold render. destruct (assoc main E) as [top|]; [|reflexivity]. cbn [depth_ok].
+  unfold render. destruct (find_tmpl E main) as [[top|]| | |]; try reflexivity. cbn [depth_ok].
   destruct (0 + Z.of_nat 1 <=? L); [|discriminate].
   destruct (lrel_icall Q L E fuel (TTemplate None top) (mkIst (prepare (blocks_of top)) [] [Some []] (mkVenv ctx [[]]) 0)) as [H|H].
   - destruct (icall Q (Some L) E fuel _ _); try discriminate. cbn in *. congruence.
   - rewrite H. reflexivity.
+Qed.
+
+(* ------------------------------------------------------------------------------------ *)
+(* 9. a template that exists but does not load is not "missing"                           *)
+(* ------------------------------------------------------------------------------------ *)
+Lemma first_existing_unloadable E v c n rest : forall miss,
+  (forall m, In m miss -> find_tmpl E m = Ok None) -> find_tmpl E n = Err c ->
+  first_existing E v (map NLit miss ++ NLit n :: rest) = Err c.
+Proof.
+  induction miss as [|m miss IH]; intros Hm Hn; cbn [map app first_existing eval_name bind].
+  - rewrite Hn. reflexivity.
+  - rewrite (Hm m (or_introl eq_refl)). cbn [bind]. apply IH; [|assumption]. intros m' Hm'. apply Hm. right; assumption.
+Qed.
+
+Lemma unloadable_include_proof Q lim E call cur miss n rest ign st c :
+  (forall m, In m miss -> find_tmpl E m = Ok None) -> find_tmpl E n = Err c ->
+  perform_include Q lim E call cur (map NLit miss ++ NLit n :: rest) ign st = Err c.
+Proof.
+  intros Hm Hn. unfold perform_include. rewrite (first_existing_unloadable E _ c n rest miss Hm Hn). reflexivity.
+Qed.
+
+Lemma unloadable_parent_proof Q lim E f cur p rest st c : find_tmpl E p = Err c -> memZ p (loaded st) = false ->
+  icall Q lim E (S f) (TTemplate cur (IExtends (NLit p) :: rest)) st = Err c.
+Proof.
+  intros Ha Hm. cbn [icall ilist istep load_blocks eval_name bind]. rewrite Hm, Ha. reflexivity.
 Qed.
